@@ -179,6 +179,7 @@ def check_value(m: Machine, out: str, assignment, counts, entries_of, index_dims
         if cache is not None:
             cache["spec"] = rhs
     diff = lhs.sub(rhs)
+    _maybe_crosscheck(m, rng, diff)
     if diff.is_const():
         if diff.const_value() == 0:
             return None
@@ -194,6 +195,51 @@ def check_value(m: Machine, out: str, assignment, counts, entries_of, index_dims
     at = {i: model.eval(c, model_completion=True).as_long() for i, c in coord.items()}
     raise Violation("value-mismatch", ("output differs from the assignment's meaning", at), model,
                     detail={"coordinate": at})
+
+
+CROSS = {"n": 0, "queries": 0, "agree": 0, "inconclusive": 0, "disagree": []}
+
+
+def _maybe_crosscheck(m: Machine, rng, diff):
+    """Every k-th value query is also put to cvc5 (second solver); verdicts must agree."""
+    import os
+    import shutil
+    import subprocess
+    import tempfile
+
+    every = int(os.environ.get("VERIF_CVC5_EVERY", "0") or 0)
+    if not every or diff.is_const():
+        return
+    CROSS["n"] += 1
+    if CROSS["n"] % every:
+        return
+    if shutil.which("cvc5") is None:
+        return
+    s2 = z3.Solver()
+    s2.set("timeout", 30000)
+    s2.add(m.solver.assertions())
+    s2.add(*rng)
+    s2.add(diff.z3() != 0)
+    rz = str(s2.check())
+    with tempfile.NamedTemporaryFile("w", suffix=".smt2", delete=False) as f:
+        f.write("(set-logic ALL)\n" + s2.to_smt2())
+        path = f.name
+    try:
+        out = subprocess.run(["cvc5", "--tlimit=30000", path], capture_output=True, text=True, timeout=90)
+        rc = out.stdout.strip().splitlines()[0] if out.stdout.strip() else "error"
+        if out.stderr.strip() or "(error" in out.stdout:
+            rc = "error"
+    except subprocess.TimeoutExpired:
+        rc = "unknown"
+    finally:
+        os.unlink(path)
+    CROSS["queries"] += 1
+    if rc in ("unknown", "error") or rz == "unknown":
+        CROSS["inconclusive"] += 1
+    elif rc == rz:
+        CROSS["agree"] += 1
+    else:
+        CROSS["disagree"].append(f"z3 {rz} vs cvc5 {rc}")
 
 
 def check_support(m: Machine, out: str, assignment, counts, entries_of):
